@@ -665,6 +665,146 @@ fn case_sig(case: &Case) -> String {
     format!("{}|{}|{}", case.reqs.iter().map(|r| r.tag()).collect::<Vec<_>>().join(","), kinds.join(","), shape)
 }
 
+
+// ------------------------------------------------- requests pipelined in front of a protocol upgrade
+
+/// `k` ordinary requests followed by an upgrade request on a connection whose service stack has an
+/// upgrade service.  Every ordinary request was dispatched, so each is owed its response, in
+/// order, before whatever the upgrade handler writes.
+#[derive(Clone, Debug)]
+struct UpCase {
+    k: usize,
+    /// 0 handlers ready, one segment; 1 one segment, handlers released afterwards in order;
+    /// 2 upgrade request arrives while every handler is pending; 3 while only the last one is
+    mode: u8,
+    /// socket not writable until the end: earlier responses are still buffered at hand-over
+    blocked: bool,
+    body_len: usize,
+}
+
+impl UpCase {
+    fn to_json(&self) -> Value {
+        json!({"upgrade_case": {"k": self.k, "mode": self.mode, "blocked": self.blocked, "body_len": self.body_len}})
+    }
+    fn from_json(v: &Value) -> Self {
+        UpCase { k: v["k"].as_u64().unwrap_or(1) as usize, mode: v["mode"].as_u64().unwrap_or(0) as u8, blocked: v["blocked"].as_bool().unwrap_or(false), body_len: v["body_len"].as_u64().unwrap_or(5) as usize }
+    }
+}
+
+fn eval_upgrade(c: &UpCase, rep: &mut Reporter) {
+    rep.eval();
+    let mut cfg = ConnCfg::persistent();
+    cfg.upgrade = true;
+    let progs: Vec<Prog> = (0..c.k).map(|i| Prog { post_gate: Some(i), kind: BodyKind::Bytes, steps: vec![data(c.body_len, i, 0)], ..Default::default() }).collect();
+    let mut sc = Scenario::new(cfg, progs, c.k);
+    if c.blocked {
+        sc.initial_credit = Some(0);
+    }
+    let ordinary: Vec<u8> = (0..c.k).flat_map(|i| format!("GET /r{i} HTTP/1.1\r\nHost: t\r\n\r\n").into_bytes()).collect();
+    let up = b"GET /up HTTP/1.1\r\nHost: t\r\nConnection: upgrade\r\nUpgrade: websocket\r\n\r\n".to_vec();
+    let mut all = ordinary.clone();
+    all.extend_from_slice(&up);
+    match c.mode {
+        0 => {
+            for g in 0..c.k {
+                sc.acts.push(Act::Gate(g, 1));
+            }
+            sc.acts.push(Act::Push(all));
+        }
+        1 => {
+            sc.acts.push(Act::Push(all));
+            for g in 0..c.k {
+                sc.acts.push(Act::Gate(g, 1));
+            }
+        }
+        2 => {
+            sc.acts.push(Act::Push(ordinary));
+            sc.acts.push(Act::Push(up));
+            for g in 0..c.k {
+                sc.acts.push(Act::Gate(g, 1));
+            }
+        }
+        _ => {
+            sc.acts.push(Act::Push(ordinary));
+            for g in 0..c.k - 1 {
+                sc.acts.push(Act::Gate(g, 1));
+            }
+            sc.acts.push(Act::Push(up));
+            sc.acts.push(Act::Gate(c.k - 1, 1));
+        }
+    }
+    sc.settle.push(Act::SetCredit(usize::MAX));
+    let oc = match guard(|| run_scenario(&sc)) {
+        Ok(o) => o,
+        Err(p) => {
+            rep.violation("panic", &panic_site(&p), &format!("panic: {p}"), c.to_json());
+            return;
+        }
+    };
+    if std::env::var("AVMON_DEBUG").is_ok() {
+        crate::world::run::debug_dump(&sc, &oc);
+    }
+    let sig = format!("upgrade k={} mode={} blocked={}", c.k, c.mode, c.blocked);
+    rep.sig(&format!("{sig} len={}", c.body_len.min(1) + (c.body_len > 4096) as usize));
+    rep.count("upgrade_cases", 1);
+    if oc.livelock || oc.stalled {
+        rep.violation("upgrade-hand-over-stuck", &sig, &format!("livelock={} stalled={} with every gate open and the socket writable", oc.livelock, oc.stalled), c.to_json());
+        return;
+    }
+    let dispatched = oc.reqs.len();
+    let rp = h1_resp::parse_responses(&oc.out, &|_| Some("GET".to_string()), true);
+    let finals: Vec<&RefResp> = rp.resps.iter().filter(|r| r.status >= 200).collect();
+    let idxs: Vec<Option<usize>> = finals.iter().map(|r| r.req_idx_header()).collect();
+    let want: Vec<Option<usize>> = (0..dispatched).map(Some).collect();
+    if idxs != want {
+        rep.violation(
+            "response-lost-before-upgrade",
+            &sig,
+            &format!("{dispatched} ordinary requests were dispatched in front of the upgrade request; final responses on the wire answer {idxs:?}; output: {}", esc_short(&oc.out, 300)),
+            c.to_json(),
+        );
+        return;
+    }
+    for (i, r) in finals.iter().enumerate() {
+        if !r.complete || r.body != oc.reqs[i].resp_yielded {
+            rep.violation("body-differs", &format!("{sig} before-upgrade"), &format!("response #{i} in front of the upgrade: complete={} body {} bytes, handler produced {}", r.complete, r.body.len(), oc.reqs[i].resp_yielded.len()), c.to_json());
+            return;
+        }
+    }
+    if let Some((at, why)) = rp.malformed_at {
+        rep.violation("stream-malformed", &format!("{sig} {why}"), &format!("output not parseable as responses at offset {at} ({why}): {}", esc_short(&oc.out, 300)), c.to_json());
+        return;
+    }
+    // the upgrade handler's own answer comes after all of them
+    match rp.resps.iter().position(|r| r.status == 101) {
+        Some(p) if p == rp.resps.len() - 1 && rp.resps[p].header("x-upgraded").is_some() => rep.count("upgrade_answer_last", 1),
+        other => rep.violation("upgrade-answer-misplaced", &sig, &format!("101 at position {other:?} of {} messages: {}", rp.resps.len(), esc_short(&oc.out, 300)), c.to_json()),
+    }
+}
+
+fn upgrade_cases(ctx: &Ctx, rep: &mut Reporter) {
+    let mut idx = 0u64;
+    let mut complete = true;
+    for k in 1..=3usize {
+        for mode in 0..4u8 {
+            for blocked in [false, true] {
+                for body_len in [0usize, 5, 70_000] {
+                    idx += 1;
+                    if !ctx.mine(idx) {
+                        continue;
+                    }
+                    if ctx.out_of_time() {
+                        complete = false;
+                        continue;
+                    }
+                    eval_upgrade(&UpCase { k, mode, blocked, body_len }, rep);
+                }
+            }
+        }
+    }
+    rep.exhaustive("1-3 ordinary requests in front of an upgrade request x 4 arrival/hand-over orders x socket writable or not x 3 body sizes", complete);
+}
+
 // ------------------------------------------------------------------------------------ generators
 
 fn data(n: usize, i: usize, k: usize) -> BStep {
@@ -908,11 +1048,22 @@ fn gen_case(rng: &mut Rng) -> Case {
 pub fn run(ctx: &Ctx, rep: &mut Reporter) {
     let mut solo = Solo { cache: HashMap::new() };
     if let Some(r) = &ctx.replay {
+        if !r["upgrade_case"].is_null() {
+            eval_upgrade(&UpCase::from_json(&r["upgrade_case"]), rep);
+            rep.sig("replay-a");
+            rep.sig("replay-b");
+            return;
+        }
         let case = Case::from_json(r);
         eval_case(&case, &mut solo, rep);
         rep.sig("replay-a");
         rep.sig("replay-b");
         return;
+    }
+
+    // ---- requests pipelined in front of a protocol upgrade
+    if !ctx.is_miri() {
+        upgrade_cases(ctx, rep);
     }
 
     // ---- Phase A: every schedule of every ordered pair (thorough: also triples) of atoms
